@@ -52,6 +52,9 @@ type Contract struct {
 	Inline   bool // callers inline the body instead of using the contract
 	NoVerify bool
 	Safety   bool // generate safety obligations (panic, nil, index, div) for this function
+	DynPure  bool
+	Shared   []string
+	Rely     []*Clause
 	Atomic   bool
 	Props    []string
 	File     string
@@ -243,6 +246,19 @@ func ParseContracts(pkgPath, filename string, file *ast.File, fsetLine func(ast.
 				cur.Inline = true
 			case "safety":
 				cur.Safety = true
+			case "shared":
+				// heap components other goroutines may write between any two atomic steps of this function
+				for _, a := range strings.Split(rest, ",") {
+					if a = strings.TrimSpace(a); a != "" {
+						cur.Shared = append(cur.Shared, a)
+					}
+				}
+			case "rely":
+				// what the environment preserves about the shared components (assumed after each interference)
+				cur.Rely = append(cur.Rely, &Clause{Kind: "rely", Text: rest, File: filename, Line: line})
+			case "dynamic-calls-pure":
+				// calls through function values inside this function have no effect on modelled state (trusted)
+				cur.DynPure = true
 			case "note":
 				cur.Notes = append(cur.Notes, rest)
 			default:
